@@ -258,3 +258,27 @@ func tokenize(s string) []string {
 	}
 	return toks
 }
+
+// RawText sends SMT-LIB text without reading a response.
+func (s *Solver) RawText(txt string) { s.raw(txt) }
+
+// RawCheck sends text that ends in (check-sat) and returns the verdict.
+func (s *Solver) RawCheck(txt string) Result {
+	t0 := time.Now()
+	defer func() { s.Time += time.Since(t0); s.Queries++ }()
+	nerr := len(s.Errors)
+	s.raw(txt)
+	lines, err := s.roundtrip()
+	if err != nil || len(s.Errors) != nerr {
+		return Unknown
+	}
+	for _, l := range lines {
+		switch strings.TrimSpace(l) {
+		case "sat":
+			return Sat
+		case "unsat":
+			return Unsat
+		}
+	}
+	return Unknown
+}
